@@ -40,6 +40,13 @@ fn width(space: Space, k: usize) -> f64 {
 /// Largest change of the model output (in dst's comparison space) when the input components
 /// and the intermediate XYZ are perturbed relatively by eps_in / eps_xyz.
 pub fn sensitivity(src: Space, dst: Space, x: &V3, eps_in: f64, eps_mid: f64) -> f64 {
+    sensitivity_abs(src, dst, x, eps_in, eps_mid, 0.0)
+}
+
+/// `abs_mid`: additional absolute perturbation of the intermediate. CIE L*a*b* / L*u*v* add the
+/// chromatic terms to (L* + 16)/116, so near black the tristimulus values carry an absolute error
+/// of a few ulp of (16/116)^3 = 2.6e-3, not a relative one.
+pub fn sensitivity_abs(src: Space, dst: Space, x: &V3, eps_in: f64, eps_mid: f64, abs_mid: f64) -> f64 {
     let (y, mid) = src.convert_to(dst, *x);
     let base = dst.cmp_vec(y);
     let mut s: f64 = 0.0;
@@ -58,7 +65,7 @@ pub fn sensitivity(src: Space, dst: Space, x: &V3, eps_in: f64, eps_mid: f64) ->
     let n = mid[0].abs().max(mid[1].abs()).max(mid[2].abs());
     for k in 0..3 {
         // matrix products mix the components: perturb relative to the largest one
-        let d = eps_mid * mid[k].abs().max(0.05 * n).max(1e-12);
+        let d = eps_mid * mid[k].abs().max(0.05 * n).max(1e-12) + abs_mid;
         for sg in [-1.0, 1.0] {
             let mut xp = mid;
             xp[k] += sg * d;
@@ -77,5 +84,7 @@ pub fn tolerance(src: Space, dst: Space, x: &V3, is_f32: bool) -> f64 {
     let (u, k) = if is_f32 { (U32, K32) } else { (U64, K) };
     let eps_xyz = k * u + if crosses_constants(src, dst) { EPS_CONST } else { 0.0 };
     let floor = dst.scale() * if is_f32 { 16.0 * U32 } else { 1e-7 };
-    floor + sensitivity(src, dst, x, k * u, eps_xyz)
+    let cie = |s: Space| matches!(s, Space::Lab(_) | Space::Lch(_) | Space::Luv(_) | Space::Lchuv(_) | Space::Hsluv(_));
+    let abs_mid = if cie(src) || cie(dst) { 16.0 * u * 2.6e-3 } else { 0.0 };
+    floor + sensitivity_abs(src, dst, x, k * u, eps_xyz, abs_mid)
 }
